@@ -57,8 +57,9 @@ def words_str(ws):
 
 
 # ------------------------------------------------------------------ mutations
-def dfa_mutants(D, rng, k=4):
-    """(name, DFA) single mutations of a total DFA (still total: the text stays well formed)"""
+def dfa_mutants(D, rng, k=4, all_flips=False):
+    """(name, DFA) single mutations of a total DFA (still total: the text stays well formed);
+    all_flips: the acceptance flip of EVERY state comes first (then k other mutations)"""
     from gambatools.dfa import DFA
     out = []
     Q = sorted(D.Q)
@@ -76,6 +77,10 @@ def dfa_mutants(D, rng, k=4):
             cands.append(("initial", q))
     cands.append(("add_state",))
     rng.shuffle(cands)
+    if all_flips:
+        flips = [c for c in cands if c[0] == "flip_final"][:8]
+        cands = flips + [c for c in cands if c[0] != "flip_final"][:k]
+        k = len(cands)
     for c in cands[:k]:
         Qn, dn, q0, F = set(D.Q), dict(D.delta), D.q0, set(D.F)
         if c[0] == "flip_final":
@@ -206,18 +211,25 @@ def inst_nfa2dfa(rng):
     import gambatools.nfa_algorithms as na
     import gambatools.notebook_nfa2dfa as nn
     N = U.random_nfa(rng, rng.randint(1, 3), rng.choice(["a", "ab"]), eps=rng.choice(["ε", "_"]), prefix="q")
+    if rng.random() < 0.5:
+        # state names that are substrings / prefixes of each other (generated names beyond q9 look like this)
+        pool = rng.choice([["q1", "q10", "q11"], ["q", "q1", "qq"], ["s2", "s", "s22"], ["x10", "x1", "x0"]])
+        N = U.rename_fa(N, {q: pool[i] for i, q in enumerate(sorted(N.Q))})
     own = na.nfa_to_dfa(N)
     t = na.print_nfa(N)
 
     def submit(A):
         labels = []
         for q in sorted(A.Q):
-            inner = q[1:-1] if re.fullmatch(r"\{.*\}", q) else q
+            if not re.fullmatch(r"\{.*\}", q):
+                labels.append([ab.enc(q), ["?not-a-set-label"]])      # only {..} labels denote sets of NFA states
+                continue
+            inner = q[1:-1]
             labels.append([ab.enc(q), sorted(ab.enc(x) for x in inner.split(",")) if inner else []])
         v, cex, exc, out = run_checker(nn.check_nfa2dfa, t, da.print_dfa(A))
         return {"family": "nfa2dfa", "nfa": ab.nfa(N), "ans": ab.dfa(A), "labels": labels, "length": 0, "verdict": v,
                 "cex": None, "exc": exc, "out": ab.enc(out), "illformed": False}
-    return own, submit, dfa_mutants(own, rng, 5)
+    return own, submit, dfa_mutants(own, rng, 3, all_flips=True)
 
 
 def inst_dfa2regexp(rng):
